@@ -1345,6 +1345,14 @@ impl Server {
         // Pgbouncer behavior is to close the server connection but that can cause
         // server connection thrashing if clients repeatedly do this.
         // Instead, we ROLLBACK that transaction before putting the connection back in the pool
+        // A server in COPY mode only accepts copy messages: a ROLLBACK or RESET would abort the
+        // COPY and be discarded, leaving whatever was to be cleaned up. Do not reuse it.
+        if self.in_copy_mode() {
+            warn!(target: "pgcat::server::cleanup", "Server returned while still in copy-mode");
+            self.mark_bad("returned while still in copy-mode");
+            return Ok(());
+        }
+
         if self.in_transaction() {
             warn!(target: "pgcat::server::cleanup", "Server returned while still in transaction, rolling back transaction");
             self.query("ROLLBACK").await?;
@@ -1373,10 +1381,6 @@ impl Server {
 
             self.query(&reset_string).await?;
             self.cleanup_state.reset();
-        }
-
-        if self.in_copy_mode() {
-            warn!(target: "pgcat::server::cleanup", "Server returned while still in copy-mode");
         }
 
         Ok(())
